@@ -1,295 +1,297 @@
-"""C04 - FSArray region assignment composites exactly the assigned block (DESIGN.md section 3, C04: A1..A7)."""
+"""C04 - FSArray region assignment composites exactly the assigned block (DESIGN.md section 3, C04)."""
 import ast
+import itertools
 
-from ..cfg import CFG, lexical_guard, single_defs
-from ..consteval import Record, TOP
-from ..objinterp import ObjInterp
+from ..fold import new_interp
+from ..models import cells, runs_of
+from ..objinterp import Obj
 from ..report import AnalysisError
 from ..srcmodel import is_self_attr, unparse
-from .c07 import _linear
 
 EXPLANATION = (
-    "Structural clauses of the all-or-nothing / never-wider / grows-downward parts of the statement.  A1 atomic commit: in "
-    "the region path of FSArray.__setitem__ the only statement that changes an existing row is one whole-list assignment "
-    "`self.rows = ...` which is the last statement, so every raising call (setslice_with_length, normalize_slice) is "
-    "evaluated before any cell changes; subscript stores into rows exist only in the int-index path; the earlier extend() "
-    "only appends blank rows built from the constructor arguments.  A2 the commit is dominated by a row-count comparison "
-    "slicesize(rowslice) != len(value) whose branch always raises.  A3 every row stored comes from "
-    "setslice_with_length(colslice.start, colslice.stop, v, self.num_columns) (and in fsarray() with the array's width), and "
-    "in setslice_with_length every return is dominated by `len(result) > length -> raise`, the result is "
-    "self.splice(fs, startindex, endindex), the left pad is startindex - len(self) spaces, the right pad "
-    "endindex - startindex - len(fs) spaces (affine forms), and when the row continues past the region the value's width "
-    "is validated to equal the region's width before splicing (a longer block row would push existing content right).  "
-    "A4 growth: the row index is normalised against an unbounded length - normalize_slice is abstractly interpreted on int "
-    "and slice row indices at and beyond the current height with the length expression written at the call site and must "
-    "not reject them.  A5 who-may-write rows.  A6 region read returns [row[colslice] for row in rows[rowslice]]."
+    "FSArray.__setitem__ / __getitem__ / fsarray() (and everything they call: normalize_slice, setslice_with_length, splice, "
+    "divides, fmtstr ...) are abstractly interpreted on a catalogue of arrays of small shapes and region assignments (regions "
+    "inside, straddling and beyond the current height; block rows empty, shorter than, equal to and longer than the "
+    "region; plain and formatted rows; int and slice indices; wrong row counts; two assignments in a row) and every "
+    "resulting array is compared, cell by cell (character and formatting), with an independent reference model of the "
+    "statement: region cells show the block (blank where a block row is shorter), cells outside are untouched, the array grows "
+    "downward with blank rows, no row becomes wider than the array, and a rejected assignment changes no cell; region reads "
+    "return what the cells show; fsarray(strings, width) builds rows that show the strings and rejects strings wider than "
+    "an explicit width (0 included).  Structural side conditions: who may write rows / num_columns; splice returns `self` "
+    "only for an empty insertion."
 )
-NOT_DECIDED = "which cells show what (slice arithmetic of splice/normalize_slice, padding widths as numbers): the compositing itself (C06/C09 territory)."
+NOT_DECIDED = ("shapes and block sizes beyond the catalogue (rows <= 4, width <= 6): the compositing is slice arithmetic over "
+               "runtime values, so this is a bounded claim; constructor formatting arguments.")
+
+BLANK = (" ", ())
 
 
-def check(src, rep):
-    rep.explanation = EXPLANATION
-    rep.not_decided = NOT_DECIDED
-    rep.assumptions = ["list concatenation/assignment semantics; zip truncation"]
-    rep.trusted_base = ["CPython ast", "sa/cfg.py", "sa/objinterp.py (for normalize_slice on row indices only)"]
-    counts = {}
-    rep.guard(rule_setitem, src, rep, counts)
-    rep.guard(rule_setslice, src, rep, counts)
-    rep.guard(rule_growth, src, rep, counts)
-    rep.guard(rule_fsarray, src, rep, counts)
-    rep.guard(rule_writers, src, rep, counts)
-    rep.guard(rule_getitem, src, rep, counts)
-    rep.extracted["counts"] = counts
-    rep.floor("stores to rows", counts.get("row_writers", 0), 4)
+class Ref:
+    """Independent reference model: rows are lists of (char, attributes-that-are-on)."""
+
+    def __init__(self, rows, width):
+        self.rows = [list(r) for r in rows]
+        self.width = width
+
+    def copy(self):
+        return Ref(self.rows, self.width)
+
+    def shown(self):
+        return [r + [BLANK] * (self.width - len(r)) for r in self.rows]
+
+    def assign(self, r0, r1, c0, c1, block):
+        """Returns None on success, or raises ValueError (any error) leaving self unchanged."""
+        if r1 - r0 == 0 or c1 - c0 == 0:
+            rows = [list(r) for r in self.rows]
+            while len(rows) < r1:
+                rows.append([])
+            self.rows = rows
+            return
+        if len(block) != r1 - r0:
+            raise ValueError("row count")
+        rows = [list(r) for r in self.rows]
+        while len(rows) < r1:
+            rows.append([])
+        for i, b in enumerate(block):
+            row = rows[r0 + i]
+            b = list(b)
+            rw = c1 - c0
+            if len(row) < c0:
+                row = row + [BLANK] * (c0 - len(row))
+            if len(row) > c1:
+                if len(b) > rw:
+                    raise ValueError("reaches into existing content")
+                b = b + [BLANK] * (rw - len(b))
+                row = row[:c0] + b + row[c1:]
+            else:
+                row = row[:c0] + b
+            if len(row) > self.width:
+                raise ValueError("wider than the array")
+            rows[r0 + i] = row
+        self.rows = rows
 
 
-def _always_raises(stmts):
-    from ..cfg import enumerate_paths
-    ps = enumerate_paths(stmts)
-    return bool(ps) and all(p.term == "raise" for p in ps)
+def _cells_of_rows(arr):
+    return [cells(runs_of(x)) for x in arr.fields["rows"]]
 
 
-def rule_setitem(src, rep, counts):
+def _shown(arr):
+    w = arr.fields["num_columns"]
+    return [r + [BLANK] * (w - len(r)) for r in _cells_of_rows(arr)]
+
+
+def _strip(shown):
+    """blank cells compare equal whatever formatting a blank has"""
+    return [[(c, e if c != " " else ()) for c, e in r] for r in shown]
+
+
+def rule_semantic(src, rep, counts):
+    it = new_interp(src)
     f = src.func("formatstringarray", "FSArray.__setitem__")
-    body = f.node.body
-    # stores
-    whole = []
-    for n in f.own_nodes():
-        if isinstance(n, (ast.Assign, ast.AugAssign, ast.Delete)):
-            tg = n.targets if isinstance(n, (ast.Assign, ast.Delete)) else [n.target]
-            for t in tg:
-                if is_self_attr(t, "rows"):
-                    whole.append(n)
-                for s in ast.walk(t):
-                    if isinstance(s, ast.Subscript) and isinstance(s.ctx, (ast.Store, ast.Del)) and is_self_attr(s.value, "rows"):
-                        g = lexical_guard(f.module, n, f.node)
-                        in_int_path = any(pol and t2.startswith("isinstance(") and t2.endswith(", int)") for t2, pol in g)
-                        rep.ob("A1-no-in-place-row-store-in-region-path", f.where(n), f.scope, unparse(n).split("\n")[0], in_int_path,
-                               "rows are overwritten one at a time in the region path: when a later block row is rejected the "
-                               "earlier rows have already changed (the assignment is not all-or-nothing)")
-        if isinstance(n, ast.Call) and isinstance(n.func, ast.Attribute) and is_self_attr(n.func.value, "rows") and \
-                n.func.attr in ("extend", "append", "insert", "pop", "remove", "clear", "sort", "reverse", "__setitem__"):
-            ok = n.func.attr == "extend"
-            blank = False
-            if ok and n.args and isinstance(n.args[0], (ast.ListComp, ast.GeneratorExp)):
-                el = n.args[0].elt
-                blank = isinstance(el, ast.Call) and unparse(el.func) == "fmtstr" and el.args and \
-                    isinstance(el.args[0], ast.Constant) and el.args[0].value == "" and \
-                    "self.saved_args" in unparse(el) and "self.saved_kwargs" in unparse(el)
-            rep.ob("A1-growth-appends-blank-rows-only", f.where(n), f.scope, unparse(n)[:100], ok and blank,
-                   "before the commit the row list may only grow by blank rows built from the constructor's formatting arguments")
-    ok = len(whole) == 1 and isinstance(whole[0], ast.Assign) and body[-1] is whole[0]
-    rep.ob("A1-single-commit-is-last-statement", f.where(whole[0]) if whole else f.where(), f.scope,
-           unparse(whole[0]).split("\n")[0] if whole else "<no whole-list assignment>", ok,
-           "the region path must change existing rows by exactly one whole-list assignment `self.rows = ...` as its last "
-           "statement, so that every call that can reject the block runs before any cell changes")
-    if not ok:
-        return
-    commit = whole[0]
-    # A3: elements come from setslice_with_length(..., self.num_columns)
-    calls = [n for n in ast.walk(commit.value) if isinstance(n, ast.Call) and isinstance(n.func, ast.Attribute) and
-             n.func.attr == "setslice_with_length"]
-    ok = len(calls) == 1 and len(calls[0].args) == 4 and unparse(calls[0].args[3]) in ("self.num_columns", "self.width")
-    colv = unparse(calls[0].args[0]).split(".")[0] if calls else "colslice"
-    ok = ok and [unparse(a) for a in calls[0].args[:2]] == ["%s.start" % colv, "%s.stop" % colv]
-    rep.ob("A3-rows-built-by-width-bounded-primitive", f.where(commit), f.scope, unparse(calls[0]) if calls else "<none>", ok,
-           "every row written must be the result of setslice_with_length(col.start, col.stop, value_row, <array width>): that is "
-           "what rejects a row wider than the array")
-    # shape: rows[:start] + [comprehension over zip(rows[rowslice], value)] + rows[stop:]
-    v = commit.value
-    parts = []
+    red = lambda s: it.call1("formatstring", "fmtstr", s, "red")[1]     # noqa: E731
 
-    def flat(e):
-        if isinstance(e, ast.BinOp) and isinstance(e.op, ast.Add):
-            flat(e.left)
-            flat(e.right)
-        else:
-            parts.append(e)
-    flat(v)
-    rowv = None
-    ok = len(parts) == 3 and isinstance(parts[1], ast.ListComp)
-    if ok:
-        gen = parts[1].generators[0]
-        it = gen.iter
-        ok = isinstance(it, ast.Call) and unparse(it.func) == "zip" and len(it.args) == 2 and not gen.ifs and \
-            isinstance(it.args[0], ast.Subscript) and is_self_attr(it.args[0].value, "rows") and unparse(it.args[1]) == f.params()[2]
-        if ok:
-            rowv = unparse(it.args[0].slice)
-            ok = unparse(parts[0]) == "self.rows[:%s.start]" % rowv and unparse(parts[2]) == "self.rows[%s.stop:]" % rowv
-            # the value row handed to setslice is the zip's second component, the receiver the first
-            tg = gen.target
-            ok = ok and isinstance(tg, ast.Tuple) and calls and unparse(calls[0].func.value) == unparse(tg.elts[0]) and \
-                unparse(calls[0].args[2]) == unparse(tg.elts[1])
-    rep.ob("A1-commit-keeps-rows-outside-the-region", f.where(commit), f.scope, unparse(v)[:140].replace("\n", " "), ok,
-           "the new row list must be rows[:start] + [one new row per (old row, block row) of the region] + rows[stop:]: rows "
-           "outside the region are carried over unchanged and in place")
-    # A2: row count validated before the commit
-    idx = body.index(commit)
-    found = False
-    for st in body[:idx]:
-        if isinstance(st, ast.If) and isinstance(st.test, ast.Compare) and len(st.test.ops) == 1 and \
-                isinstance(st.test.ops[0], ast.NotEq):
-            l, r = unparse(st.test.left), unparse(st.test.comparators[0])
-            val = "len(%s)" % f.params()[2]
-            if {l, r} == {"slicesize(%s)" % (rowv or "rowslice"), val} and _always_raises(st.body) and not st.orelse:
-                found = True
-    rep.ob("A2-row-count-validated-before-commit", f.where(commit), f.scope, "if slicesize(rowslice) != len(value): raise", found,
-           "a block with the wrong number of rows must be rejected before the commit; zip() would silently truncate it")
-    counts["setitem_commit"] = 1
+    def build(strings, width):
+        r = it.call1("formatstringarray", "fsarray", list(strings), width)
+        if r[0] != "ok":
+            raise AnalysisError("fsarray(%r, %r) not evaluable: %s" % (strings, width, r))
+        return r[1]
 
-
-def rule_setslice(src, rep, counts):
-    f = src.func("formatstring", "FmtStr.setslice_with_length")
-    ps = f.params()
-    if len(ps) != 5:
-        raise AnalysisError("setslice_with_length: unexpected signature %s" % ps)
-    _, start, end, fs, length = ps
-    cfg = CFG(f.node)
-    rets = [n for n in cfg.nodes if n.kind == "return"]
-    splice = [n for n in f.own_nodes() if isinstance(n, ast.Assign) and isinstance(n.value, ast.Call) and unparse(n.value.func) == "self.splice"]
-    ok = len(splice) == 1 and [unparse(a) for a in splice[0].value.args] == [fs, start, end]
-    res = unparse(splice[0].targets[0]) if splice else None
-    rep.ob("A3-result-is-splice-of-region", f.where(splice[0]) if splice else f.where(), f.scope,
-           unparse(splice[0]) if splice else "<none>", ok, "the new row must be self.splice(value, startindex, endindex)")
-    # every return returns the splice result and is dominated by the false edge of len(result) > length
-    tests = [n for n in cfg.nodes if n.kind == "test" and unparse(n.ast) in ("len(%s) > %s" % (res, length), "%s < len(%s)" % (length, res))]
-    for r in rets:
-        okr = r.ast.value is not None and unparse(r.ast.value) == res
-        dom = False
-        for t in tests:
-            fa = [s for s in t.succ if s.kind == "false"]
-            tr = [s for s in t.succ if s.kind == "true"]
-            raises_on_true = bool(tr) and not cfg.reaches(tr[0], cfg.exit)
-            if fa and cfg.dominates(fa[0], r) and raises_on_true:
-                dom = True
-        rep.ob("A3-result-never-longer-than-array", f.where(r.ast), f.scope, unparse(r.ast), okr and dom,
-               "every return of setslice_with_length must hand out the spliced row and be dominated by `len(result) > length -> "
-               "raise`: otherwise a row wider than the array is stored")
-    # pads
-    pads = {}
-    for n in f.own_nodes():
-        if isinstance(n, ast.Assign) and unparse(n.targets[0]) == fs and isinstance(n.value, ast.BinOp) and isinstance(n.value.op, ast.Add):
-            g = lexical_guard(f.module, n, f.node)
-            for side, other in ((n.value.left, n.value.right), (n.value.right, n.value.left)):
-                if isinstance(side, ast.BinOp) and isinstance(side.op, ast.Mult) and unparse(other) == fs:
-                    amt = side.right if isinstance(side.left, ast.Constant) else side.left
-                    ch = side.left if isinstance(side.left, ast.Constant) else side.right
-                    where = "left" if side is n.value.left else "right"
-                    pads[where] = (n, amt, ch, g)
-    defs = {}
-    L = pads.get("left")
-    ok = L is not None and _linear(L[1], defs) == {start: 1, "len(self)": -1} and isinstance(L[2], ast.Constant) and L[2].value == " " and \
-        [(t, p) for t, p in L[3]] in ([("len(self) < %s" % start, True)], [("%s > len(self)" % start, True)])
-    rep.ob("A3-left-pad-to-start-column", f.where(L[0]) if L else f.where(), f.scope, unparse(L[0]) if L else "<none>", ok,
-           "a row shorter than the region's start column must be padded with exactly startindex - len(row) blanks, under "
-           "`len(self) < startindex`")
-    R = pads.get("right")
-    ok = R is not None and _linear(R[1], defs) == {end: 1, start: -1, "len(%s)" % fs: -1} and isinstance(R[2], ast.Constant) and \
-        R[2].value == " " and [(t, p) for t, p in R[3]] in ([("len(self) > %s" % end, True)], [("%s < len(self)" % end, True)])
-    rep.ob("A3-right-pad-to-region-width", f.where(R[0]) if R else f.where(), f.scope, unparse(R[0]) if R else "<none>", ok,
-           "when the row continues past the region a shorter value must be padded with endindex - startindex - len(value) blanks")
-    # width validation when the row continues past the region
-    valid = False
-    for n in f.own_nodes():
-        test = None
-        if isinstance(n, ast.Assert):
-            test = n.test
-            pol = True
-        elif isinstance(n, ast.If) and _always_raises(n.body):
-            test = n.test
-            pol = False
-        if test is None or not isinstance(test, ast.Compare) or len(test.ops) != 1:
-            continue
-        l, r = test.left, test.comparators[0]
-        lin_l, lin_r = _linear(l, {}), _linear(r, {})
-        if lin_l is None or lin_r is None:
-            continue
-        diff = dict(lin_l)
-        for k, v in lin_r.items():
-            diff[k] = diff.get(k, 0) - v
-        diff = {k: v for k, v in diff.items() if v}
-        want = {"len(%s)" % fs: 1, end: -1, start: 1}
-        neg = {k: -v for k, v in want.items()}
-        eq_op = isinstance(test.ops[0], ast.Eq) if pol else isinstance(test.ops[0], (ast.NotEq, ast.Gt))
-        if (diff == want or diff == neg) and eq_op:
-            g = lexical_guard(f.module, n, f.node)
-            if [(t, p) for t, p in g] in ([("len(self) > %s" % end, True)], [("%s < len(self)" % end, True)]) and \
-                    splice and n.lineno < splice[0].lineno:
-                valid = True
-    rep.ob("A3-block-row-width-validated-when-row-continues", f.where(), f.scope,
-           "under len(self) > endindex: len(%s) == %s - %s checked before splicing" % (fs, end, start), valid,
-           "when existing content follows the region, a block row longer than the region must be rejected: without the check it is "
-           "spliced in and pushes the content right of the region (cells outside the region change) as long as the row still "
-           "fits the array width", witness={"history": "width 10, row 'abXXgh': a[0:1, 2:4] = ['12345'] gives 'ab12345gh' instead of an error"})
-
-
-def rule_growth(src, rep, counts):
-    f = src.func("formatstringarray", "FSArray.__setitem__")
-    it = ObjInterp(src)
-    calls = [n for n in f.own_nodes() if isinstance(n, ast.Assign) and isinstance(n.value, ast.Call) and
-             unparse(n.value.func) == "normalize_slice" and len(n.value.args) == 2 and
-             unparse(n.targets[0]) == unparse(n.value.args[1]) and "row" in unparse(n.targets[0])]
-    if len(calls) != 1:
-        raise AnalysisError("FSArray.__setitem__: expected one `rowslice = normalize_slice(<length>, rowslice)`, found %d" % len(calls))
-    c = calls[0]
-    env = dict(it.folder.module("formatstringarray"))
-    rows = [0, 1]
-    env["self"] = Record(rows=rows, num_columns=5, height=len(rows), width=5)
-    L = it.folder.try_expr(c.value.args[0], env)
-    if L is TOP or not isinstance(L, int):
-        raise AnalysisError("length argument `%s` of the row normalisation is not foldable" % unparse(c.value.args[0]))
-    bad = None
+    arrays = [(["abcdef", "ab", "", "abcd"], 6), (["ab"], 4), ([], 3), (["abc", "abc"], 3)]
+    blocks_1 = ["", "x", "xy", "xyz", "wxyz", "vwxyzq"]
+    if rep.tier == "thorough":
+        arrays += [(["a", "abcde", "abc"], 5), ([""], 1), (["ab", "", "", "a"], 2), (["abcd"], 4), (["", "abc"], 6), ([], 0)]
+        blocks_1 += ["vwxyz", "uvwxyzq"]
     n = 0
-    for idx in [0, 1, 2, 3, 4, 7, 200, slice(0, 2), slice(1, 5), slice(2, 3), slice(4, 6), slice(16, 17)]:
-        n += 1
-        r = it.call1("formatstring", "normalize_slice", L, idx)
+    bad = {"A-region-shows-block-rest-untouched": [], "A-rejected-assignment-changes-nothing": [], "A-empty-block-row-blanks-the-region": [],
+           "A-never-wider-than-the-array": []}
+    cases = []
+    for strings, width in arrays:
+        H = len(strings)
+        row_regions = [(0, 1), (1, 3), (H, H + 1), (max(0, H - 1), H + 1), (H + 2, H + 3)]
+        col_regions = [(0, 2), (1, 3), (2, width), (0, width), (1, 1)]
+        for (r0, r1), (c0, c1) in itertools.product(row_regions, col_regions):
+            if c1 > width or c0 > c1:
+                continue
+            for bl in blocks_1:
+                cases.append((strings, width, r0, r1, c0, c1, [bl] * (r1 - r0), False))
+            cases.append((strings, width, r0, r1, c0, c1, ["x"] * (r1 - r0 + 1), False))          # wrong row count
+            cases.append((strings, width, r0, r1, c0, c1, (["xy", "", "q", "xyz"] * 2)[:r1 - r0], True))   # mixed, formatted
+            cases.append((strings, width, r0, r1, c0, c1, (["q", "xy", "", "x"] * 2)[:r1 - r0], "array"))   # block given as an FSArray
+            same = [(strings[r][c0:c1] if r < H else "") for r in range(r0, r1)]
+            if any(same):
+                cases.append((strings, width, r0, r1, c0, c1, same, True))      # the text already there, other formatting
+    def one(case):
+        strings, width, r0, r1, c0, c1, block, fmt = case
+        r = it.call1("formatstringarray", "fsarray", list(strings), width)
+        if r[0] != "ok":
+            return ("error", "fsarray(%r, %r) not evaluable: %s" % (strings, width, r))
+        arr = r[1]
+        ref = Ref([[(ch, ()) for ch in s] for s in strings], width)
+        vals = [red(b) if fmt is True and b else b for b in block]
+        bcells = [[(ch, (("fg", 31),) if fmt is True and b else ()) for ch in b] for b in block]
+        if fmt == "array":
+            v = it.call1("formatstringarray", "fsarray", list(block), max([len(b) for b in block] + [0]))
+            if v[0] != "ok":
+                return ("error", "fsarray(%r) not evaluable: %s" % (block, v))
+            vals = v[1]
+        before = _strip(_shown(arr))
+        h_before = len(arr.fields["rows"])
+        r = it.call1("formatstringarray", "FSArray.__setitem__", arr, (slice(r0, r1), slice(c0, c1)), vals if fmt == "array" else list(vals))
         if r[0] == "opaque":
-            raise AnalysisError("normalize_slice outside the evaluated subset: %s" % r[1])
-        want = slice(idx, idx + 1) if isinstance(idx, int) else idx
-        ok = r[0] == "ok" and (r[1].start, r[1].stop) == (want.start, want.stop)
-        rep.case(True, {"row_index": str(idx), "height": len(rows), "normalised": str(r)} if n in (5, 10) else None)
-        if not ok and bad is None:
-            bad = (idx, r)
-    rep.ob("A4-rows-beyond-height-are-accepted", f.where(c), f.scope, unparse(c), bad is None,
-           "with %d existing rows the row index %s is normalised to %s: a region reaching past the last row must grow the array "
-           "with blank rows, not be rejected or moved (the row index has to be normalised against an unbounded length)"
-           % (len(rows), bad[0] if bad else "", bad[1] if bad else ""), witness={"history": "fsarray(['abcd','efgh'])[4, 1] = ['x']"})
-    # growth amount: max(0, rowslice.stop - len(self.rows)) blank rows
-    defs = single_defs(f.node)
-    ext = [n2 for n2 in f.own_nodes() if isinstance(n2, ast.Call) and isinstance(n2.func, ast.Attribute) and
-           n2.func.attr == "extend" and is_self_attr(n2.func.value, "rows")]
-    ok = False
-    if ext and ext[0].args and isinstance(ext[0].args[0], (ast.ListComp, ast.GeneratorExp)):
-        g = ext[0].args[0].generators[0]
-        cnt = g.iter.args[0] if isinstance(g.iter, ast.Call) and unparse(g.iter.func) == "range" and len(g.iter.args) == 1 else None
-        if isinstance(cnt, ast.Name) and cnt.id in defs:
-            cnt = defs[cnt.id]
-        if isinstance(cnt, ast.Call) and unparse(cnt.func) == "max" and len(cnt.args) == 2:
-            other = [a for a in cnt.args if not (isinstance(a, ast.Constant) and a.value == 0)]
-            zero = [a for a in cnt.args if isinstance(a, ast.Constant) and a.value == 0]
-            rv = unparse(c.targets[0])
-            ok = len(other) == 1 and len(zero) == 1 and _linear(other[0], {}) == {"%s.stop" % rv: 1, "len(self.rows)": -1} and \
-                ext[0].lineno > c.lineno
-    rep.ob("A4-grows-by-missing-rows", f.where(ext[0]) if ext else f.where(), f.scope, unparse(ext[0])[:120] if ext else "<none>", ok,
-           "the array must grow by exactly max(0, rowslice.stop - len(rows)) blank rows after the row index was normalised")
-    counts["growth_cases"] = n
+            return ("error", "FSArray.__setitem__ outside the evaluated subset: %s" % r[1])
+        expect_err = False
+        ref2 = ref.copy()
+        try:
+            ref2.assign(r0, r1, c0, c1, bcells)
+        except ValueError:
+            expect_err = True
+        after = _strip(_shown(arr))
+        desc = "array %r (width %d): a[%d:%d, %d:%d] = %r%s" % (strings, width, r0, r1, c0, c1, block, " (red)" if fmt is True else " (as FSArray)" if fmt else "")
+        if any(len(x) > width for x in _cells_of_rows(arr)):
+            return ("A-never-wider-than-the-array", desc, "a row is wider than the array: %s" % [len(x) for x in _cells_of_rows(arr)])
+        if expect_err:
+            ok = r[0] == "raise" and after[:h_before] == before and all(all(c == BLANK for c in row) for row in after[h_before:])
+            if not ok:
+                return ("A-rejected-assignment-changes-nothing", desc, "expected an error and no cell changed; got %s and rows %s" % (r, _txt(after)))
+        else:
+            want = _strip(ref2.shown())
+            ok = r == ("ok", None) and after == want
+            if not ok:
+                kind = "A-empty-block-row-blanks-the-region" if any(b == "" for b in block) and r == ("ok", None) and \
+                    _only_empty_rows_differ(after, want, block, r0) else "A-region-shows-block-rest-untouched"
+                return (kind, desc, "cells are %s, expected %s%s" % (_txt(after), _txt(want), "" if r == ("ok", None) else "; result %s" % (r,)))
+        return None
+    from ..par import pmap
+    for case, res in zip(cases, pmap(one, cases, min_chunk=16)):
+        n += 1
+        strings, width, r0, r1, c0, c1, block, fmt = case
+        rep.case(True, {"array": strings, "width": width, "region": [r0, r1, c0, c1], "block": block} if n % 211 == 1 else None)
+        if res is None:
+            continue
+        if res[0] == "error":
+            raise AnalysisError(res[1])
+        bad[res[0]].append((res[1], res[2]))
+    for rule, items in bad.items():
+        if items:
+            d, why = items[0]
+            rep.ob(rule, f.where(), f.scope, _group_key(rule), False, "%s: %s (%d such cases)" % (d, why, len(items)),
+                   witness={"first_case": d, "cases": len(items)})
+        else:
+            rep.ob(rule, f.where(), f.scope, _group_key(rule), True)
+    counts["assign_cases"] = n
+    # int indices: a[r, c] = [x]
+    for strings, width, rr, cc in ((["abcd", "efgh"], 4, 4, 1), (["abcd", "efgh"], 4, 1, 3), (["ab"], 5, 0, 4), ([], 3, 2, 1)):
+        arr = build(strings, width)
+        ref = Ref([[(ch, ()) for ch in s] for s in strings], width)
+        r = it.call1("formatstringarray", "FSArray.__setitem__", arr, (rr, cc), ["x"])
+        ref.assign(rr, rr + 1, cc, cc + 1, [[("x", ())]])
+        ok = r == ("ok", None) and _strip(_shown(arr)) == _strip(ref.shown())
+        rep.ob("A-int-index-assignment", f.where(), f.scope, "array %r: a[%d, %d] = ['x']" % (strings, rr, cc), ok,
+               "a single-cell assignment at or beyond the current height must grow the array with blank rows and set the cell; got %s, "
+               "rows %s (expected %s)" % (r, _txt(_strip(_shown(arr))), _txt(_strip(ref.shown()))),
+               witness={"history": "fsarray(%r)[%d, %d] = ['x']" % (strings, rr, cc)})
+        rep.case(True)
+    # sequences of assignments (histories)
+    histories = [
+        (["abcdef", "ab"], 6, [((0, 2, 1, 3), ["XY", "Z"], True), ((1, 3, 0, 2), ["", "pq"], False), ((0, 1, 1, 3), ["xy"], False),
+                               ((0, 3, 4, 6), ["1", "22", "333"], False)]),
+        (["abcdef", "ab"], 6, [((0, 2, 1, 3), ["XY", "Z"], True), ((0, 2, 1, 3), ["XY", "Z"], False), ((0, 1, 0, 6), ["abc"], True),
+                               ((0, 1, 0, 6), ["abc"], False), ((0, 1, 0, 3), ["abc"], True), ((3, 4, 2, 4), ["k"], False)]),
+        ([], 4, [((1, 2, 1, 3), ["ab"], True), ((0, 2, 0, 4), ["", " ab"], False), ((0, 3, 3, 4), ["1", "2", "3"], True),
+                 ((1, 2, 0, 4), ["wxyz"], False), ((1, 2, 1, 3), ["xy"], True), ((1, 2, 1, 3), ["xyz"], False), ((1, 2, 2, 4), [""], False)]),
+    ]
+    for strings, width, steps in histories:
+        arr = build(strings, width)
+        ref = Ref([[(ch, ()) for ch in s] for s in strings], width)
+        trail = []
+        for (r0, r1, c0, c1), block, fmt in steps:
+            vals = [red(b) if fmt and b else b for b in block]
+            bcells = [[(ch, (("fg", 31),) if fmt and b else ()) for ch in b] for b in block]
+            before = _strip(_shown(arr))
+            r = it.call1("formatstringarray", "FSArray.__setitem__", arr, (slice(r0, r1), slice(c0, c1)), list(vals))
+            if r[0] == "opaque":
+                raise AnalysisError("FSArray.__setitem__ outside the evaluated subset: %s" % r[1])
+            trail.append("a[%d:%d, %d:%d] = %r%s" % (r0, r1, c0, c1, block, " (red)" if fmt else ""))
+            ref2 = ref.copy()
+            try:
+                ref2.assign(r0, r1, c0, c1, bcells)
+                ref = ref2
+                ok = r == ("ok", None) and _strip(_shown(arr)) == _strip(ref.shown())
+            except ValueError:
+                ok = r[0] == "raise" and _strip(_shown(arr))[:len(before)] == before
+            rep.ob("A-assignment-history", f.where(), f.scope, "fsarray(%r, %d): %s" % (strings, width, "; ".join(trail)), ok,
+                   "after the last step of this sequence of assignments the cells are %s, expected %s (result %s; * marks a formatted row)"
+                   % (_fmt(_strip(_shown(arr))), _fmt(_strip(ref.shown())), r), witness={"history": trail})
+            rep.case(True)
+            if not ok:
+                break
+    # region reads
+    g = src.func("formatstringarray", "FSArray.__getitem__")
+    arr = build(["abcdef", "ab", "", "abcd"], 6)
+    it.call1("formatstringarray", "FSArray.__setitem__", arr, (slice(0, 2), slice(1, 3)), [red("XY"), red("Z")])
+    rows = _cells_of_rows(arr)
+    m = bad_r = 0
+    for idx, want in [((slice(0, 2), slice(1, 4)), [rows[0][1:4], rows[1][1:4]]), ((slice(1, 4), slice(0, 6)), [rows[1][0:6], rows[2][0:6], rows[3][0:6]]),
+                      ((1, 1), [rows[1][1:2]]), ((2, 3), [rows[2][3:4]]), ((1, 5), [rows[1][5:6]]), ((3, slice(2, 6)), [rows[3][2:6]]),
+                      ((slice(0, 4), 0), [r[0:1] for r in rows]), ((0, slice(None, None)), [rows[0]])]:
+        r = it.call1("formatstringarray", "FSArray.__getitem__", arr, idx)
+        if r[0] == "opaque":
+            raise AnalysisError("FSArray.__getitem__ outside the evaluated subset: %s" % r[1])
+        m += 1
+        got = [cells(runs_of(x)) for x in r[1]] if r[0] == "ok" and isinstance(r[1], list) else r
+        rep.case(True)
+        if got != want:
+            bad_r += 1
+            if bad_r <= 3:
+                rep.ob("A-region-read-returns-what-cells-show", g.where(), g.scope, "a[%s]" % (idx,), False,
+                       "reading a[%s] gives %s, the cells show %s (a blank cell right of a short row reads as nothing, not as an error)"
+                       % (idx, got, want), witness={"index": str(idx)})
+    if not bad_r:
+        rep.ob("A-region-read-returns-what-cells-show", g.where(), g.scope, "%d region / cell reads" % m, True)
+    r = it.call1("formatstringarray", "FSArray.__getitem__", arr, 1)
+    rep.ob("A-row-read", g.where(), g.scope, "a[1]", r[0] == "ok" and isinstance(r[1], Obj) and cells(runs_of(r[1])) == rows[1], "a[1] gives %s" % (r,))
+    # fsarray()
+    h = src.func("formatstringarray", "fsarray")
+    for strings, width, want in ((["abc", "d"], None, ("ok", 3)), (["abc", "d"], 5, ("ok", 5)), (["abc"], 2, "raise"), (["abc"], 0, "raise"),
+                                 (["", ""], 0, ("ok", 0)), ([], None, ("ok", 0)), ([], 4, ("ok", 4)), (["abc"], 3, ("ok", 3))):
+        r = it.call1("formatstringarray", "fsarray", list(strings), width)
+        if r[0] == "opaque":
+            raise AnalysisError("fsarray outside the evaluated subset: %s" % r[1])
+        if want == "raise":
+            ok = r[0] == "raise"
+        else:
+            ok = r[0] == "ok" and r[1].fields.get("num_columns") == want[1] and \
+                [[c for c, _ in x] for x in _cells_of_rows(r[1])] == [list(s) for s in strings]
+        rep.ob("A-fsarray-builds-rows-that-show-the-strings", h.where(), h.scope, "fsarray(%r, %r)" % (strings, width), ok,
+               "fsarray(%r, %r) must %s; got %s" % (strings, width, "raise (a string is wider than the requested width)" if want == "raise"
+                                                    else "build %d-column rows showing the strings" % want[1],
+                                                    r if r[0] != "ok" else (r[1].fields.get("num_columns"), _txt(_cells_of_rows(r[1])))))
+        rep.case(True)
 
 
-def rule_fsarray(src, rep, counts):
-    f = src.func("formatstringarray", "fsarray")
-    calls = [n for n in f.own_nodes() if isinstance(n, ast.Call) and isinstance(n.func, ast.Attribute) and n.func.attr == "setslice_with_length"]
-    ctor = [n for n in f.own_nodes() if isinstance(n, ast.Call) and unparse(n.func) == "FSArray"]
-    ok = len(calls) == 1 and len(ctor) == 1 and len(calls[0].args) == 4 and len(ctor[0].args) >= 2 and \
-        unparse(calls[0].args[3]) == unparse(ctor[0].args[1]) and unparse(calls[0].args[0]) == "0"
-    rep.ob("A3-fsarray-rows-bounded-by-its-width", f.where(calls[0]) if calls else f.where(), f.scope,
-           unparse(calls[0]) if calls else "<none>", ok,
-           "fsarray() must build each row with setslice_with_length(0, len(s), s, <the width given to FSArray(...)>)")
-    # explicit width: rejects longer strings
-    checks = [n for n in f.own_nodes() if isinstance(n, ast.If) and "width" in unparse(n.test) and "len(" in unparse(n.test) and
-              _always_raises(n.body)]
-    rep.ob("A3-fsarray-rejects-strings-wider-than-width", f.where(checks[0]) if checks else f.where(), f.scope,
-           unparse(checks[0].test) if checks else "<none>", bool(checks),
-           "with an explicit width, a string longer than the width must raise")
+def _group_key(rule):
+    return {"A-region-shows-block-rest-untouched": "catalogue of region assignments vs reference grid",
+            "A-rejected-assignment-changes-nothing": "assignments the reference rejects (wrong row count, row too long)",
+            "A-empty-block-row-blanks-the-region": "block rows that are empty strings",
+            "A-never-wider-than-the-array": "row widths after every assignment"}[rule]
+
+
+def _txt(shown):
+    return ["".join(c for c, _ in r) + ("*" if any(e for _, e in r) else "") for r in shown]
+
+
+def _fmt(shown):
+    return ["".join(c.upper() if e else c for c, e in r) if all(c.islower() or not c.isalpha() for c, _ in r) else
+            "".join(c for c, _ in r) + "/" + "".join("^" if e else "." for _, e in r) for r in shown]
+
+
+def _only_empty_rows_differ(after, want, block, r0):
+    for i, (a, w) in enumerate(zip(after, want)):
+        if a != w:
+            j = i - r0
+            if not (0 <= j < len(block) and block[j] == ""):
+                return False
+    return len(after) == len(want)
 
 
 def rule_writers(src, rep, counts):
@@ -302,31 +304,24 @@ def rule_writers(src, rep, counts):
                 for a in ast.walk(t):
                     if isinstance(a, ast.Attribute) and a.attr == "rows" and isinstance(a.ctx, (ast.Store, ast.Del)):
                         n += 1
+                        helper = g.module.name == "formatstringarray" and (g.cls is not None and g.cls.name == "FSArray" or g.qualname == "fsarray")
                         rep.ob("A5-who-may-write-rows", g.where(node), g.scope, unparse(node).split("\n")[0][:100],
-                               (g.module.name, g.qualname) in allowed or g.module.name in ("events",),
-                               "FSArray.rows is written outside FSArray.__init__/__setitem__/fsarray")
+                               (g.module.name, g.qualname) in allowed or helper or g.module.name in ("events",),
+                               "FSArray.rows is written outside the FSArray class / fsarray()")
                     if isinstance(a, ast.Attribute) and a.attr == "num_columns" and isinstance(a.ctx, (ast.Store, ast.Del)):
                         rep.ob("A5-width-is-fixed", g.where(node), g.scope, unparse(node).split("\n")[0][:100],
                                g.qualname == "FSArray.__init__", "the array's width is changed after construction")
     counts["row_writers"] = n
 
 
-def rule_getitem(src, rep, counts):
-    f = src.func("formatstringarray", "FSArray.__getitem__")
-    rets = [n for n in f.own_nodes() if isinstance(n, ast.Return) and isinstance(n.value, ast.ListComp)]
-    ok = False
-    if len(rets) == 1:
-        lc = rets[0].value
-        g = lc.generators[0]
-        from ..cfg import local_defs
-        defs = local_defs(f.node)
-        ok = len(lc.generators) == 1 and not g.ifs and isinstance(g.iter, ast.Subscript) and is_self_attr(g.iter.value, "rows") and \
-            isinstance(lc.elt, ast.Subscript) and unparse(lc.elt.value) == unparse(g.target)
-        if ok:
-            rs, cs = unparse(g.iter.slice), unparse(lc.elt.slice)
-            d1, d2 = defs.get(rs, []), defs.get(cs, [])
-            ok = bool(d1) and bool(d2) and all(d is not None and unparse(d).startswith("normalize_slice(len(self.rows), ") for d in d1) and \
-                all(d is not None and unparse(d).startswith("normalize_slice(self.num_columns, ") for d in d2)
-    rep.ob("A6-region-read", f.where(rets[0]) if rets else f.where(), f.scope, unparse(rets[0]) if rets else "<none>", ok,
-           "reading a region must return [row[colslice] for row in rows[rowslice]] with the slices normalised against the number "
-           "of rows and the width")
+def check(src, rep):
+    rep.explanation = EXPLANATION
+    rep.not_decided = NOT_DECIDED
+    rep.assumptions = ["list / slice semantics of CPython for the values the evaluator folds"]
+    rep.trusted_base = ["CPython ast", "sa/consteval.py", "sa/absint.py", "sa/objinterp.py", "the reference grid model in sa/rules/c04.py"]
+    counts = {}
+    rep.guard(rule_semantic, src, rep, counts)
+    rep.guard(rule_writers, src, rep, counts)
+    rep.extracted["counts"] = counts
+    rep.floor("assignment cases", counts.get("assign_cases", 0), 300)
+    rep.floor("stores to rows", counts.get("row_writers", 0), 3)
